@@ -40,32 +40,72 @@ def showInv (l : List (String × Nat)) : String :=
   let sorted := l.toArray.qsort (fun a b => a.1 < b.1) |>.toList
   "[" ++ ",".intercalate (sorted.map fun (k, n) => k ++ ":" ++ toString n) ++ "]"
 
+def kindOf : String → Option HKind
+  | "json" => some .json | "jsonctx" => some .jsonCtx | "typed" => some .typed | "typedctx" => some .typedCtx
+  | "slice" => some .slice | "sliceref" => some .sliceRef | "adapter" => some .adapter
+  | "registry" => some .registry | "struct" => some .struct
+  | _ => none
+
+/-- value of `key=` among the trailing tokens -/
+def kvOf (key : String) (toks : List String) : Option String :=
+  toks.findSome? fun t => match t.splitOn "=" with
+    | [k, v] => if k = key then some v else none
+    | _ => none
+
+/-- `expn`: the error code a bare route's built-in handler ends up reporting on the blocking TCP server, computed
+from the extracted decode facts (`*` = depends on registry / struct state, `-` = no response or not dispatched). -/
+def expnOf (req : Req) (utf8 fnd : Bool) (toks : List String) : String :=
+  if route Gen.codes req utf8 fnd ≠ .dispatch ∨ req.isNotify then "-"
+  else
+    let dec := (kvOf "dec" toks).getD "ok"
+    let cl := (kvOf "cl" toks).getD "any"
+    let k := (kvOf "k" toks).getD "none"
+    if dec = "ok" ∧ cl = "any" then "*"
+    else
+      let clo : Closure := match cl.splitOn ":" with
+        | ["err", n] => .err (natOf n) []
+        | _ => .ok 0 []
+      if k = "custom" then (match clo with | .ok _ _ => "0" | .err c _ => toString c)
+      else match kindOf k with
+        | none => "bad-kind"
+        | some hk =>
+          let r := builtinRespond Gen.serveFacts Gen.codes Gen.decodeFacts Gen.entryFacts .tcp req utf8 fnd hk false
+            ((kvOf "bl" toks).getD "0" = "1") (dec = "ok") clo []
+          match r.1 with
+          | some m => toString m.header.ec
+          | none => "-"
+
 def step (st : St) (ws : List String) : St × String :=
   match ws with
   | "req" :: idx :: rest =>
-    -- an optional trailing `P` marks a pressure sequence (same prediction; the harness reads slowly)
-    match headerOfNats ((rest.take 11).map natOf), ((rest.drop 11).take 6) with
-    | some h, [q, b, found, exec, hv, ho] =>
-      match bytesOfHex q, bytesOfHex b, parseHOut hv, parseHOut ho with
-      | some q, some b, some hv, some ho =>
+    match headerOfNats ((rest.take 11).map natOf), ((rest.drop 11).take 8) with
+    | some h, [q, b, found, exec, hv, ho, hvn, hon] =>
+      let toks := rest.drop 19
+      match bytesOfHex q, bytesOfHex b, parseHOut hv, parseHOut ho,
+            parseHOut (if hvn = "=" then hv else hvn), parseHOut (if hon = "=" then ho else hon) with
+      | some q, some b, some hv, some ho, some hvn, some hon =>
         let req : Req := ⟨h, q, b⟩
         let utf8 := (ByteArray.mk q.toArray).validateUTF8
         let fnd := found = "1"
         -- a `none` probe (request never reached a handler) is irrelevant to `respond`; use a dummy
         let dummy : HOut := .err 0 []
-        let hv' := hv.getD dummy
-        let ho' := ho.getD dummy
         let wsT : Transport := if exec = "o" then .wsOff else .wsInline
-        let r1 := respond Gen.codes .tcp req utf8 fnd hv' ho'
-        let r2 := respond Gen.codes .atcp req utf8 fnd hv' ho'
-        let r3 := respond Gen.codes wsT req utf8 fnd hv' ho'
-        let st' := if r1.2 = 1 then { st with inv := bump (hexOfBytes q) st.inv } else st
+        let sf := Gen.serveFacts
+        let r1 := respondG sf Gen.codes .tcp req utf8 fnd (hv.getD dummy) (ho.getD dummy)
+        let r2 := respondG sf Gen.codes .atcp req utf8 fnd (hv.getD dummy) (ho.getD dummy)
+        let r3 := respondG sf Gen.codes wsT req utf8 fnd (hv.getD dummy) (ho.getD dummy)
+        -- the bare routers (no middleware): the handlers' own `handle_view` / `handle_with_ctx`
+        let n1 := respondG sf Gen.codes .tcp req utf8 fnd (hvn.getD dummy) (hon.getD dummy)
+        let n2 := respondG sf Gen.codes .atcp req utf8 fnd (hvn.getD dummy) (hon.getD dummy)
+        let n3 := respondG sf Gen.codes wsT req utf8 fnd (hvn.getD dummy) (hon.getD dummy)
+        let st' := (List.replicate r1.2 ()).foldl (fun s _ => { s with inv := bump (hexOfBytes q) s.inv }) st
         -- `tcpw` / `atcpw`: the same servers with a write timeout configured (other framing branch, same bytes)
         (st', joinSp [idx, "tcp=" ++ showResp r1.1, "tcpw=" ++ showResp r1.1, "atcp=" ++ showResp r2.1,
-                      "atcpw=" ++ showResp r2.1, "ws=" ++ showResp r3.1])
-      | _, _, _, _ => (st, idx ++ " bad-op")
+                      "atcpw=" ++ showResp r2.1, "ws=" ++ showResp r3.1, "tcpn=" ++ showResp n1.1,
+                      "atcpn=" ++ showResp n2.1, "wsn=" ++ showResp n3.1, "expn=" ++ expnOf req utf8 fnd toks])
+      | _, _, _, _, _, _ => (st, idx ++ " bad-op")
     | _, _ => (st, idx ++ " bad-op")
-  | ["inv", idx] =>
+  | "inv" :: idx :: _ =>
     let s := showInv st.inv
     ({ inv := [] }, joinSp [idx, "tcp=" ++ s, "tcpw=" ++ s, "atcp=" ++ s, "atcpw=" ++ s, "ws=" ++ s])
   | _ => (st, "bad-op")
